@@ -380,6 +380,7 @@ type gvar struct {
 	ty    string // int bool str list func
 	cnst  bool
 	arity int
+	req   int // required (non-default) parameters
 }
 
 type gen struct {
@@ -471,7 +472,11 @@ func (g *gen) intExpr(d int) *N {
 	case 6:
 		if fs := g.vars("func", false); len(fs) > 0 && g.o.Funcs {
 			f := Pick(g.r, fs)
-			args := make([]*N, f.arity)
+			nargs := f.arity
+			if f.req < f.arity {
+				nargs = f.req + g.r.Intn(f.arity-f.req+1)
+			}
+			args := make([]*N, nargs)
 			for i := range args {
 				args[i] = g.intExpr(d - 1)
 			}
@@ -841,10 +846,18 @@ func (g *gen) stmt(d int) []*N {
 		savedLoop, savedSw := g.loop, g.sw
 		g.loop, g.sw = 0, 0
 		g.fn++
+		req := ar
+		if ar > 0 && g.r.Chance(35) {
+			req = g.r.Intn(ar + 1)
+		}
 		for i := 0; i < ar; i++ {
 			p := g.fresh("p")
 			g.declare(p, "int")
-			params.C = append(params.C, ns("param", p))
+			if i >= req {
+				params.C = append(params.C, ns("param", p, nInt(int64(g.r.Intn(9)))))
+			} else {
+				params.C = append(params.C, ns("param", p))
+			}
 		}
 		if !g.o.Closures {
 			// hide outer int variables? they are globals at depth 0 and stay visible; keep them.
@@ -858,8 +871,27 @@ func (g *gen) stmt(d int) []*N {
 		g.fn--
 		g.loop, g.sw = savedLoop, savedSw
 		g.pop()
-		g.scopes[len(g.scopes)-1] = append(g.scopes[len(g.scopes)-1], gvar{name: name, ty: "func", cnst: true, arity: ar})
+		g.scopes[len(g.scopes)-1] = append(g.scopes[len(g.scopes)-1], gvar{name: name, ty: "func", cnst: true, arity: ar, req: req})
 		return []*N{n("expr", ns("func", name, params, b))}
+	case choice < 29 && choice >= 28 && g.o.Funcs && deep && g.fn == 0:
+		// a recursive function with a base case, or a closure factory capturing its parameter
+		if g.r.Bool() {
+			name, p := g.fresh("r"), g.fresh("p")
+			op := Pick(g.r, []string{"+", "*"})
+			body := nBlock(
+				n("expr", n("if", nInfix("<=", nId(p), nInt(1)), nBlock(n("return", nInt(1))))),
+				n("return", nInfix(op, nId(p), nCall(nId(name), nInfix("-", nId(p), nInt(1))))))
+			g.scopes[len(g.scopes)-1] = append(g.scopes[len(g.scopes)-1], gvar{name: name, ty: "func", cnst: true, arity: 1, req: 1})
+			return []*N{n("expr", ns("func", name, n("params", ns("param", p)), body))}
+		}
+		mk, a, b, fn := g.fresh("mk"), g.fresh("p"), g.fresh("p"), g.fresh("g")
+		inner := ns("func", "", n("params", ns("param", b)), nBlock(
+			nAssign(a, "+=", nId(b)),
+			n("return", nInfix(Pick(g.r, []string{"+", "-", "*"}), nId(a), nId(b)))))
+		outer := ns("func", mk, n("params", ns("param", a)), nBlock(n("return", inner)))
+		arg := g.intExpr(1)
+		g.scopes[len(g.scopes)-1] = append(g.scopes[len(g.scopes)-1], gvar{name: mk, ty: "mk", cnst: true}, gvar{name: fn, ty: "func", cnst: true, arity: 1, req: 1})
+		return []*N{n("expr", outer), nVar(fn, nCall(nId(mk), arg))}
 	case choice < 28 && g.fn > 0:
 		if g.r.Chance(30) {
 			return []*N{n("expr", n("if", g.boolExpr(1), nBlock(n("return", g.intExpr(1)))))}
